@@ -14,7 +14,7 @@ META = {
     "id": "C13",
     "coq_targets": ["Props/C13.vo", "Extract/Extract_C13.vo"],
     "technique": "Coq proof (association-list model of dict(zip(..)); fold invariants for the per-frame and per-time painting loops, reusing the C19 painter lemmas) + differential correspondence of the extracted model with relabel_segmentation and with the tracks_from_df import path",
-    "level_text": "Theorems C13_offset / C13_relabel / C13_relabel_last_wins / C13_graph_shift / C13_shortcut_sound / C13_handle_segmentation hold for every label array and every list of (node id, time, seg id) rows of every size (unbounded Z labels and ids); the hand-written model is tied to /repo by running the extracted model and the implementation (direct call and end-to-end DataFrame import) on the same generated inputs and comparing arrays pixel by pixel, the renamed node sets, and which branch of handle_segmentation was taken.",
+    "level_text": "Theorems C13_offset / C13_relabel / C13_relabel_last_wins / C13_graph_shift / C13_shortcut_sound / C13_handle_segmentation hold for every label array and every list of (node id, time, seg id) rows of every size (unbounded Z labels and ids); the hand-written model is tied to /repo by running the extracted model and the implementation (direct call and end-to-end DataFrame import) on the same generated inputs and comparing arrays pixel by pixel, the renamed node sets, and which branch of handle_segmentation was taken. C13_relabel_is_generated: relabel_segmentation of the model equals, for all arguments, the code translated on every run from the current _import_segmentation.py (Gen/Relabel_gen.v; fail-closed translator).",
     "level_note": "Trusted: Coq kernel, extraction (ExtrOcamlBasic), OCaml driver, Python harness. Modelled not verified: numpy boolean-mask assignment, np.unique, np.isin, np.array_equal, Python dict insertion order, networkx relabel_nodes (its effect on the node set is compared with the model on every case; edges are checked by the oracle only), pandas/geff loading of the DataFrame (row order is preserved; checked by the comparison). uint64 wrap-around is out of scope (ids are unbounded Z in the model, non-negative in the harness).",
     "design_ref": "DESIGN.md section 9 (C13)",
     "assumptions": ["every row's time is a valid frame index (0 <= time < T); Python raises IndexError otherwise",
@@ -285,6 +285,15 @@ def canon_model(mo):
         i, t, _ = r.split(":")
         nt[int(i)] = int(t)
     return fr + "|" + ",".join("%d:%d" % kv for kv in sorted(nt.items()))
+
+
+def pre_build(ctx):
+    # re-translate import_export/_import_segmentation.py (Gen/Relabel_gen.v, tied by Proofs/RelabelTie.v)
+    import translate_numpy_utils
+
+    ok, msg = translate_numpy_utils.regenerate_relabel()
+    if not ok:
+        raise RuntimeError("translator refused _import_segmentation.py: %s" % msg)
 
 
 def run(ctx):
